@@ -101,6 +101,36 @@ func init() {
 	H["verifOneOf"] = func(fr *frame, a []value) value {
 		return fr.i.ex.freshStr(fr.i.ex.concStr(a[0]), fr.i.ex.strs(strSlice(a[1])))
 	}
+	// verifMapStr(label, key, keys, vals): a fresh symbolic string t with key == keys[i] => t == vals[i]
+	// (a function of another symbolic string, without forking); key is constrained to keys.
+	H["verifMapStr"] = func(fr *frame, a []value) value {
+		ex := fr.i.ex
+		keys, vals := ex.strs(strSlice(a[2])), ex.strs(strSlice(a[3]))
+		if len(keys) != len(vals) || len(keys) == 0 {
+			panic(engineError{"verifMapStr: keys and vals must have the same non-zero length"})
+		}
+		var dom []string
+		seen := map[string]bool{}
+		for _, v := range vals {
+			if !seen[v] {
+				seen[v] = true
+				dom = append(dom, v)
+			}
+		}
+		t := ex.freshStr(ex.concStr(a[0]), dom)
+		kt := strTerm(strOf(a[1]).norm())
+		var alts []string
+		for i, k := range keys {
+			ex.sv.send(fmt.Sprintf("(assert (=> (= %s %s) (= %s %s)))", kt.s, smtString(k), t.parts[0].atom.t.s, smtString(vals[i])))
+			alts = append(alts, fmt.Sprintf("(= %s %s)", kt.s, smtString(k)))
+		}
+		if len(alts) == 1 {
+			ex.sv.send("(assert " + alts[0] + ")")
+		} else {
+			ex.sv.send("(assert (or " + strings.Join(alts, " ") + "))")
+		}
+		return t
+	}
 	H["verifAssume"] = func(fr *frame, a []value) value {
 		ex := fr.i.ex
 		switch c := a[0].(type) {
